@@ -4,6 +4,7 @@ invariant, frame, soundness `rel req (ctxVal …) (eval …)`, completeness `∃
 literals, variables, `+ - * /` by literals and unary minus over ARBITRARY sub-expressions.
 -/
 import Rooc.Proofs.LinAssemble
+import Rooc.Proofs.ExpLemmasDefined
 
 set_option linter.unusedSectionVars false
 set_option linter.unusedSimpArgs false
@@ -242,11 +243,48 @@ structure Spec (Src : Constraint (Ext K) → Prop) (e : Exp (Ext K)) (req : Req)
     ∃ ρ' : String → K, (∀ x, inScope s.domain x → ρ' x = ρ x) ∧ DomSat ρ' s'.domain ∧ QSat ρ' s' ∧
       ctxVal ρ' c = v
 
+/-- every literal of the expression is finite (syntactic; `Rooc.finiteLits`).  This is all the specification of
+`linExp` needs to know in advance: its soundness/completeness clauses are conditional on `eval ρ e = some v`. -/
+def FinE (e : Exp (Ext K)) : Prop := finiteLits e = true
+
+theorem FinE.bin_left {op : BinOp} {a b : Exp (Ext K)} (h : FinE (.bin op a b)) : FinE a := by
+  simp only [FinE, finiteLits, Bool.and_eq_true] at h; exact h.1
+theorem FinE.bin_right {op : BinOp} {a b : Exp (Ext K)} (h : FinE (.bin op a b)) : FinE b := by
+  simp only [FinE, finiteLits, Bool.and_eq_true] at h; exact h.2
+theorem FinE.neg {a : Exp (Ext K)} (h : FinE (.un .neg a)) : FinE a := by
+  simpa only [FinE, finiteLits] using h
+theorem FinE.abs {a : Exp (Ext K)} (h : FinE (.abs a)) : FinE a := by
+  simpa only [FinE, finiteLits] using h
+theorem FinE.not {a : Exp (Ext K)} (h : FinE (.not a)) : FinE a := by
+  simpa only [FinE, finiteLits] using h
+theorem FinE.num {x : Ext K} (h : FinE (.num x)) : ∃ k : K, x = .fin k := by
+  simp only [FinE, finiteLits] at h; exact (isFin_iff x).mp h
+theorem FinE.max_mem {es : List (Exp (Ext K))} (h : FinE (.max es)) : ∀ e ∈ es, FinE e := by
+  simp only [FinE, finiteLits] at h; exact (finiteLitsL_iff es).mp h
+theorem FinE.min_mem {es : List (Exp (Ext K))} (h : FinE (.min es)) : ∀ e ∈ es, FinE e := by
+  simp only [FinE, finiteLits] at h; exact (finiteLitsL_iff es).mp h
+theorem FinE.and_mem {es : List (Exp (Ext K))} (h : FinE (.and es)) : ∀ e ∈ es, FinE e := by
+  simp only [FinE, finiteLits] at h; exact (finiteLitsL_iff es).mp h
+theorem FinE.or_mem {es : List (Exp (Ext K))} (h : FinE (.or es)) : ∀ e ∈ es, FinE e := by
+  simp only [FinE, finiteLits] at h; exact (finiteLitsL_iff es).mp h
+theorem FinE.xor_mem {a b : Exp (Ext K)} (h : FinE (.xor a b)) : ∀ e ∈ [a, b], FinE e := by
+  simp only [FinE, finiteLits, Bool.and_eq_true] at h
+  intro e he; simp only [List.mem_cons, List.mem_nil_iff, or_false] at he
+  rcases he with rfl | rfl; exacts [h.1, h.2]
+theorem FinE.implies_mem {a b : Exp (Ext K)} (h : FinE (.implies a b)) : ∀ e ∈ [a, b], FinE e := by
+  simp only [FinE, finiteLits, Bool.and_eq_true] at h
+  intro e he; simp only [List.mem_cons, List.mem_nil_iff, or_false] at he
+  rcases he with rfl | rfl; exacts [h.1, h.2]
+theorem FinE.iff_mem {a b : Exp (Ext K)} (h : FinE (.iff a b)) : ∀ e ∈ [a, b], FinE e := by
+  simp only [FinE, finiteLits, Bool.and_eq_true] at h
+  intro e he; simp only [List.mem_cons, List.mem_nil_iff, or_false] at he
+  rcases he with rfl | rfl; exacts [h.1, h.2]
+
 /-- the call contract: what must hold before `linExp e req s`. -/
 structure Pre (Src : Constraint (Ext K) → Prop) (e : Exp (Ext K)) (s : St (Ext K)) : Prop where
   inv : StInv Src s
   vars : ∀ x ∈ varsOf e, inScope s.domain x
-  defined : DefinedE e
+  defined : FinE e
 
 theorem Spec.keepsDom {Src : Constraint (Ext K) → Prop} {e : Exp (Ext K)} {req : Req} {s s' : St (Ext K)}
     {c : Ctx (Ext K)} (h : Spec Src e req s c s') {ρ : String → K} (hd : DomSat ρ s'.domain) :
